@@ -242,6 +242,19 @@ func buildC15(tier string) *core.Plan {
 		map[string]any{"id": 1, "a": map[string]any{"v": 3}, "t": `$"{a.v}-{id}"`},
 		map[string]any{"id": 1, "a": map[string]any{"v": 2}, "k": 1},
 	}
+	// edits that change only the kind of a value, not the way it prints ("8080" -> 8080, "[1 2]" -> [1, 2])
+	kinds := []any{1, "1", true, "true", 1.5, "1.5", "x", "", "[1 2]", []any{1, 2}, "[a b]", []any{"a", "b"}, []any{"a b"}, "map[b:1]", map[string]any{"b": 1}, map[string]any{"b": "1"}, "b c:d", map[string]any{"a": "b c:d"}, map[string]any{"a": "b", "c": "d"}}
+	nk := int64(len(kinds))
+	kindSpace := core.Space{Name: "values-that-print-alike", N: nk * nk,
+		Desc: func(i int64) any { return map[string]any{"base_value": kinds[i/nk], "target_value": kinds[i%nk]} },
+		Run: func(c *core.Ctx, i int64) {
+			bv, tv := kinds[i/nk], kinds[i%nk]
+			base := map[string]any{"v": core.Clone(bv), "k": 1}
+			target := map[string]any{"v": core.Clone(tv), "k": 1}
+			c15Pair(c, base, target)
+			c15CLI(c, base, target, "json", "yaml", "json")
+			c15CLI(c, map[string]any{"m": map[string]any{"v": core.Clone(bv)}}, map[string]any{"m": map[string]any{"v": core.Clone(tv)}}, "yaml", "json", "yaml")
+		}}
 	nrt := int64(len(refTargets))
 	refSpace := core.Space{Name: "cli-inputs-with-references", N: int64(len(refBases)) * nrt, Chunk: 1,
 		Desc: func(i int64) any { return map[string]any{"base": refBases[i/nrt], "target": refTargets[i%nrt]} },
@@ -293,7 +306,7 @@ func buildC15(tier string) *core.Plan {
 			c15CLI(c, numBase, numTargets[i/27], fm[i%3], fm[(i/3)%3], fm[(i/9)%3])
 		}}
 	return &core.Plan{
-		Spaces: []core.Space{pairs, listPairs, cli, refSpace, numSpace},
+		Spaces: []core.Space{pairs, listPairs, cli, refSpace, numSpace, kindSpace},
 		Rule:   "every ordered pair (base, target) of map-rooted, null-free, $-free trees up to N nodes over keys {a,b,l} and scalars {1,2,x}; every pair of lists of <=2 (thorough 3) entries drawn from scalars, sub-lists and maps where one is a subset of another; CLI round trips in format mixes; non-trivial = base differs from target",
 		Assumptions: []string{"in-process runs use cmd/bkld/diff.go copied from /repo's working tree at build time (package clause rewritten, fatal() panics), driven exactly like cmd/bkld/main.go; the CLI space runs the real binaries",
 			"the emitted layer is applied as a second input (`bkl base layer`), where its $match: {} selects the base document"},
